@@ -154,13 +154,11 @@ func cmdBlocks(args []string) *Result {
 		blocksCheck(res, &r)
 		return res
 	}
-	for _, path := range args {
-		forEachTLCRecord(path, func(raw []byte) {
-			var r blocksRec
-			mustUnmarshal(raw, &r)
-			blocksCheck(res, &r)
-		})
-	}
+	res = parallelTLCRecords(args, func(res *Result, raw []byte) {
+		var r blocksRec
+		mustUnmarshal(raw, &r)
+		blocksCheck(res, &r)
+	})
 	res.Traces = res.Evaluations
 	return res
 }
